@@ -521,6 +521,14 @@ func (x *Exec) backEdges(f *Frame, b *ssa.BasicBlock) {
 }
 
 func (x *Exec) execStore(f *Frame, i *ssa.Store) {
+	x.execStore1(f, i)
+	// ghost updates anchored at assignments to a named local
+	if a, ok := i.Addr.(*ssa.Alloc); ok && a.Comment != "" && !a.Heap && f.top && x.con != nil && len(x.con.GhostUpd) > 0 {
+		x.runGhostUpdates(f, "set:"+a.Comment, -1, false)
+	}
+}
+
+func (x *Exec) execStore1(f *Frame, i *ssa.Store) {
 	// storing a struct value through a pointer to a heap object
 	av := x.val(f, i.Addr)
 	vv := x.val(f, i.Val)
@@ -546,9 +554,6 @@ func (x *Exec) execStore(f *Frame, i *ssa.Store) {
 	}
 	t := x.term(f, i.Val)
 	x.store(f, lv, t, i.Pos())
-	if lv.kind == LVLocal && len(lv.path) == 0 && lv.alloc != nil && lv.alloc.Comment != "" && f.top && x.con != nil && len(x.con.GhostUpd) > 0 {
-		x.runGhostUpdates(f, "set:"+lv.alloc.Comment, -1, false)
-	}
 }
 
 var richTable = map[*Frame]map[*ssa.Alloc]Val{}
